@@ -127,6 +127,7 @@ def update_domain_and_kwargs_from_args(symbolic_cls: Type, *args, **kwargs):
     domain = None
     update_cls_args(symbolic_cls)
     init_args = cls_args[symbolic_cls]
+    n_fields = 0
     for i, arg in enumerate(args):
         if isinstance(arg, From):
             domain = arg
@@ -134,7 +135,9 @@ def update_domain_and_kwargs_from_args(symbolic_cls: Type, *args, **kwargs):
                 raise ValueError(f"First non-keyword-argument to {symbolic_cls.__name__} in symbolic mode should be"
                                  f" a domain using `From()`.")
         else:
-            arg_name = init_args[i+1] # to skip `self`
+            # The j-th positional field (the domain does not count) is the j-th parameter after `self`.
+            n_fields += 1
+            arg_name = init_args[n_fields]
             kwargs[arg_name] = arg
     return domain, kwargs
 
